@@ -12,6 +12,7 @@ def run(chk):
                "guard, division, termination and write-site clauses")
     core_rules.nan_price_guard(chk, "C10")
     core_rules.coupon_accrual(chk, "C10")
+    core_rules.security_setup_rules(chk, "C10")  # optional cost tables may lack a column for a security: set-up completes (None), it does not die with KeyError
     core_rules.strategy_update(chk, "C10")
     core_rules.transact_rules(chk, "C10")
     tree_rules.setup_guards(chk, "C10")
@@ -30,6 +31,9 @@ def run(chk):
     check_equiv(chk, "C15.R1", "bt/algos.py", "WeighRandomly", "__call__", src_, "documented-weights", "WeighRandomly: %s" % what_, limit=16)
     from .c20 import REFS as RISK_REFS
     for cls, name, src, what in RISK_REFS:
+        if cls in ("ClosePositionsAfterDates", "RollPositionsAfterDates"):
+            # well-formed nested trees complete: only the target's own security children are looked up in the date tables
+            check_equiv(chk, "C20.R3", "bt/algos.py", cls, name, src, "documented-behaviour", "%s.%s: %s" % (cls, name, what), limit=14)
         if (cls, name) == ("UpdateRisk", "_set_risk_recursive"):
             # finite numbers: a flat position has zero risk whatever its (possibly missing) unit risk is
             check_equiv(chk, "C20.R1", "bt/algos.py", cls, name, src, "documented-behaviour", "%s.%s: %s" % (cls, name, what), no_inline=("_set_risk_recursive",), limit=14)
